@@ -21,7 +21,10 @@ def run(ctx):
         'symmetric constant d_gap/L',
         'R5 adiabatic branches read nothing derived from the gap arguments; '
         'the gap update is skipped by the same predicate that makes the '
-        'assemblies adiabatic']
+        'assemblies adiabatic',
+        'R6 gap-to-gap conduction is symmetric: both directions of an '
+        'edge-corner link compute their distance with the same formula from '
+        'the parameters of the same (edge) cell, looked up the same way']
     ctx.not_decided += ['discrete conservation across unequal meshes (C10)',
                         'symmetry of the run-time gap adjacency (C09)',
                         'core totals as numbers']
@@ -29,6 +32,9 @@ def run(ctx):
     r2(ctx)
     r3(ctx)
     r5(ctx)
+    from . import _gapdist
+    _gapdist.check(ctx, 'C02.R6')
+    ctx.min_instances('C02.R6', 4)
     ctx.min_instances('C02.R1', 9)
     ctx.min_instances('C02.R2', 5)
     ctx.min_instances('C02.R3', 4)
